@@ -20,8 +20,17 @@ fn fold_cfg(t: &mut Tape) -> CaseCfg {
     }
 }
 
-const ROUTES: [Route; 5] =
-    [Route::Flat, Route::FlatWo, Route::FlatWoCompiled, Route::FlatWoCompiledTwice, Route::Deep];
+/// folded and unfolded flat form, folding twice, the folding deep parser, and the flat forms made
+/// from a folded deep expression and from the deep image of a folded flat one
+const ROUTES: [Route; 7] = [
+    Route::Flat,
+    Route::FlatWo,
+    Route::FlatWoCompiled,
+    Route::FlatWoCompiledTwice,
+    Route::Deep,
+    Route::DeepToFlat,
+    Route::FlatDeepFlat,
+];
 
 fn node_count(text: &str, compile: bool) -> Option<usize> {
     let e = if compile { F::parse(text).ok()? } else { F::parse_wo_compile(text).ok()? };
